@@ -34,29 +34,67 @@ Proof.
     unfold is_digit in *. destruct (digit_val c) as [d|]; [|discriminate]. apply IH; [exact Hw | right; reflexivity].
 Qed.
 
-Lemma py_int_digits w : w <> [] -> Forall (fun c => digp c = true) w -> py_int w <> None.
+Lemma py_int_digits w : w <> [] -> length w <= 100 -> Forall (fun c => digp c = true) w -> py_int w <> None.
 Proof.
-  intros Hne H. rewrite py_int_unsigned; rewrite (strip_digits w H).
+  intros Hne HL H. rewrite py_int_unsigned; [rewrite (strip_digits w H) | exact HL | rewrite (strip_digits w H)].
   - pose proof (int_digits_ok w 0%N false H (or_introl Hne)) as K. destruct (int_digits w 0 false); [discriminate | contradiction].
   - intros c r E. subst w. inversion H as [|? ? Hc _]; subst. unfold digp in Hc. repeat (apply andb_true_iff in Hc; destruct Hc as [Hc ?]).
     repeat match goal with K : negb _ = true |- _ => apply negb_true_iff in K end. split; apply N.eqb_neq; assumption.
 Qed.
 
+(* the value of a string of at most three digits lies in 0..999 *)
+Definition small (z : Z) : Prop := (0 <= z <= 999)%Z.
+
+Lemma digit_val_lt c d : digit_val c = Some d -> (d < 10)%N.
+Proof.
+  unfold digit_val. generalize PY_DIGITS as l. induction l as [|[lo hi] l IH]; cbn [digit_val_in]; [discriminate|].
+  destruct ((lo <=? c) && (c <=? hi))%N; [|exact IH]. intros H. injection H as <-. apply N.mod_lt. discriminate.
+Qed.
+
+Lemma int_digits_bound : forall w acc pd n, Forall (fun c => digp c = true) w -> int_digits w acc pd = Some n ->
+  (n < (acc + 1) * 10 ^ N.of_nat (length w))%N.
+Proof.
+  induction w as [|c w IH]; intros acc pd n H E; cbn [int_digits] in E.
+  - destruct pd; [|discriminate]. injection E as <-. cbn. lia.
+  - inversion H as [|? ? Hc Hw]; subst. unfold digp in Hc. repeat (apply andb_true_iff in Hc; destruct Hc as [Hc ?]).
+    repeat match goal with K : negb _ = true |- _ => apply negb_true_iff in K end.
+    replace (c =? 95)%N with false in E by (symmetry; assumption).
+    destruct (digit_val c) as [d|] eqn:Ed; [|discriminate]. pose proof (digit_val_lt _ _ Ed) as Hd.
+    specialize (IH _ _ _ Hw E). cbn [length]. rewrite Nat2N.inj_succ, N.pow_succ_r'.
+    remember (10 ^ N.of_nat (length w))%N as P. nia.
+Qed.
+
+Lemma py_int_small w z : w <> [] -> length w <= 3 -> Forall (fun c => digp c = true) w -> py_int w = Some z -> small z.
+Proof.
+  intros Hne HL H E. rewrite py_int_unsigned in E; [rewrite (strip_digits w H) in E | lia | rewrite (strip_digits w H)].
+  - destruct (int_digits w 0 false) as [n|] eqn:En; [|discriminate]. injection E as <-.
+    pose proof (int_digits_bound _ _ _ _ H En) as B.
+    assert (P : (10 ^ N.of_nat (length w) <= 1000)%N).
+    { destruct w as [|a [|b [|c [|d w']]]]; cbn [length] in *; try lia; cbn; lia. }
+    unfold small. lia.
+  - intros c r E'. subst w. inversion H as [|? ? Hc _]; subst. unfold digp in Hc. repeat (apply andb_true_iff in Hc; destruct Hc as [Hc ?]).
+    repeat match goal with K : negb _ = true |- _ => apply negb_true_iff in K end. split; apply N.eqb_neq; assumption.
+Qed.
+
 (* a group whose every body is at least one character wide and built from digit sets only *)
-Definition dig_body (b : re) : bool := (1 <=? minw b) && forallb (fun cs => forallb digp (expand cs)) (csets b).
+Definition dig_body (b : re) : bool :=
+  (1 <=? minw b) && (match maxw b with Some k => k <=? 3 | None => false end) && forallb (fun cs => forallb digp (expand cs)) (csets b).
 Definition dig_group (r : re) (j : nat) : bool := forallb dig_body (gbodies r j).
 
-Lemma dig_body_int b mid : dig_body b = true -> consumed_by b mid -> py_int mid <> None.
+Lemma dig_body_int b mid : dig_body b = true -> consumed_by b mid -> exists z, py_int mid = Some z /\ small z.
 Proof.
-  intros Hb Hc. unfold dig_body in Hb. apply andb_true_iff in Hb. destruct Hb as [Hw Hs]. apply Nat.leb_le in Hw.
-  destruct (consumed_facts b mid Hc) as [F L]. apply py_int_digits.
-  - destruct mid; [cbn in L; lia | discriminate].
-  - eapply Forall_impl; [|exact F]. intros c (cs & Hin & Hcs).
-    exact (sweep digp cs (proj1 (forallb_forall _ _) Hs cs Hin) c Hcs).
+  intros Hb Hc. unfold dig_body in Hb. apply andb_true_iff in Hb. destruct Hb as [Hb Hs]. apply andb_true_iff in Hb. destruct Hb as [Hw Hm]. apply Nat.leb_le in Hw.
+  destruct (maxw b) as [k|] eqn:Ek; [|discriminate]. apply Nat.leb_le in Hm. pose proof (consumed_maxw b mid k Hc Ek) as HL.
+  destruct (consumed_facts b mid Hc) as [F L].
+  assert (Hne : mid <> []) by (destruct mid; [cbn in L; lia | discriminate]).
+  assert (Hd : Forall (fun c => digp c = true) mid).
+  { eapply Forall_impl; [|exact F]. intros c (cs & Hin & Hcs). exact (sweep digp cs (proj1 (forallb_forall _ _) Hs cs Hin) c Hcs). }
+  pose proof (py_int_digits mid Hne ltac:(lia) Hd) as K. destruct (py_int mid) as [z|] eqn:Ez; [|contradiction].
+  exists z. split; [reflexivity | exact (py_int_small mid z Hne ltac:(lia) Hd Ez)].
 Qed.
 
 Lemma search_pe_int r ng t pos endpos x j v :
-  dig_group r j = true -> search_pe r ng t pos endpos = Some x -> group t x j = Some v -> py_int v <> None.
+  dig_group r j = true -> search_pe r ng t pos endpos = Some x -> group t x j = Some v -> exists z, py_int v = Some z /\ small z.
 Proof.
   intros Hd Hs Hg. unfold group in Hg. destruct (getg (mcaps x) j) as [[a b]|] eqn:E; [|discriminate]. injection Hg as <-.
   destruct (search_pe_group r ng t pos endpos x j Hs) as [_ K]. destruct (K a b E) as (bd & Hin & Hc).
@@ -81,86 +119,52 @@ Proof. intros H. unfold group. destruct (getg (mcaps x) j) as [[a b]|]; [eexists
 Lemma step_number r ng G t e x :
   always_set r (mg_num G) = true -> mg_num G <= ng -> dig_group r (mg_num G) = true -> dig_group r (mg_num_rightmost G) = true ->
   search_pe r ng t 0 e = Some x ->
-  exists num multi z, get_rightmost G t x = Ok num /\ is_multi G t x = Ok multi /\ int_of_group num = Ok z.
+  exists num multi z, get_rightmost G t x = Ok num /\ is_multi G t x = Ok multi /\ int_of_group num = Ok z /\ small z.
 Proof.
   intros Ha Hle Hd Hdr Hs.
   destruct (search_pe_group r ng t 0 e x (mg_num G) Hs) as [K1 _]. destruct (group_some_of_getg t x _ (K1 Ha Hle)) as (v & Hv).
   unfold get_rightmost, is_multi. destruct (group t x (mg_num_rightmost G)) as [vr|] eqn:Er; cbn [is_some bind].
-  - pose proof (search_pe_int r ng t 0 e x _ vr Hdr Hs Er) as Hi. destruct (py_int vr) as [z|] eqn:Ez; [|contradiction].
+  - destruct (search_pe_int r ng t 0 e x _ vr Hdr Hs Er) as (z & Ez & Sz).
     exists (Some vr), true, z. unfold int_of_group. rewrite Ez. auto.
-  - rewrite Hv. cbn [is_some bind]. pose proof (search_pe_int r ng t 0 e x _ v Hd Hs Hv) as Hi. destruct (py_int v) as [z|] eqn:Ez; [|contradiction].
+  - rewrite Hv. cbn [is_some bind]. destruct (search_pe_int r ng t 0 e x _ v Hd Hs Hv) as (z & Ez & Sz).
     exists (Some v), false, z. unfold int_of_group. rewrite Ez. auto.
 Qed.
 
-Theorem sec_step_total txt e r : sec_step txt e = Some r -> exists st z, r = Ok st /\ int_of_group (rs_num st) = Ok z.
+Lemma sec_step_small txt e r : sec_step txt e = Some r -> exists st z, r = Ok st /\ int_of_group (rs_num st) = Ok z /\ small z.
 Proof.
   unfold sec_step. destruct (search_pe multisec_regex multisec_regex_ng txt 0 e) as [x|] eqn:Hs; [|discriminate]. intros H. injection H as <-.
-  destruct sec_facts as (F1 & F2 & F3 & F4). destruct (step_number _ _ sec_groups txt e x F1 F2 F3 F4 Hs) as (num & multi & z & E1 & E2 & E3).
-  rewrite E1, E2. cbn [bind]. eexists. exists z. split; [reflexivity | exact E3].
+  destruct sec_facts as (F1 & F2 & F3 & F4). destruct (step_number _ _ sec_groups txt e x F1 F2 F3 F4 Hs) as (num & multi & z & E1 & E2 & E3 & E4).
+  rewrite E1, E2. cbn [bind]. eexists. exists z. split; [reflexivity | split; [exact E3 | exact E4]].
 Qed.
+
+Theorem sec_step_total txt e r : sec_step txt e = Some r -> exists st z, r = Ok st /\ int_of_group (rs_num st) = Ok z.
+Proof. intros H. destruct (sec_step_small txt e r H) as (st & z & H1 & H2 & _). exists st, z. auto. Qed.
 
 Theorem lot_step_total txt e r : lot_step txt e = Some r -> exists st z, r = Ok st /\ int_of_group (rs_num st) = Ok z.
 Proof.
   unfold lot_step. destruct (search_pe multilot_regex multilot_regex_ng txt 0 e) as [x|] eqn:Hs; [|discriminate]. intros H. injection H as <-.
-  destruct lot_facts as (F1 & F2 & F3 & F4). destruct (step_number _ _ lot_groups txt e x F1 F2 F3 F4 Hs) as (num & multi & z & E1 & E2 & E3).
+  destruct lot_facts as (F1 & F2 & F3 & F4). destruct (step_number _ _ lot_groups txt e x F1 F2 F3 F4 Hs) as (num & multi & z & E1 & E2 & E3 & _).
   rewrite E1, E2. cbn [bind]. eexists. exists z. split; [reflexivity | exact E3].
 Qed.
 
-(* ---- the two-digit rendering of any integer is accepted by int() ---- *)
-Definition ascii_digit (c : N) : Prop := (48 <= c <= 57)%N.
-
-Lemma ascii_digit_digp c : ascii_digit c -> digp c = true.
-Proof.
-  intros [H1 H2]. apply (sweep digp [(48%N, 57%N)]); [vm_compute; reflexivity|]. cbn [in_ranges].
-  replace (c <? 48)%N with false by (symmetry; apply N.ltb_ge; lia). replace (c <=? 57)%N with true by (symmetry; apply N.leb_le; lia). reflexivity.
-Qed.
-
-Lemma digits_chars : forall fuel n acc, Forall ascii_digit acc -> Forall ascii_digit (digits_pos_fuel fuel n acc).
-Proof.
-  induction fuel as [|f IH]; intros n acc H; cbn [digits_pos_fuel]; [exact H|].
-  assert (K : Forall ascii_digit ((48 + n mod 10)%N :: acc)).
-  { constructor; [|exact H]. pose proof (N.mod_lt n 10 ltac:(discriminate)) as Hm. unfold ascii_digit. generalize dependent (n mod 10)%N. intros r Hm. lia. }
-  destruct (n <? 10)%N; [exact K | apply IH; exact K].
-Qed.
-
-
-Lemma str_of_N_chars n : Forall ascii_digit (str_of_N n) /\ str_of_N n <> [].
-Proof.
-  unfold str_of_N. split; [apply digits_chars; constructor|].
-  generalize (N.to_nat (N.log2 n)) as f. intros f. cbn [digits_pos_fuel].
-  assert (G : forall f m (b : str), b <> [] -> digits_pos_fuel f m b <> []).
-  { induction f0 as [|f0 IHf]; intros m b Hb; cbn [digits_pos_fuel]; [exact Hb|]. destruct (m <? 10)%N; [discriminate | apply IHf; discriminate]. }
-  destruct (n <? 10)%N; [discriminate | apply G; discriminate].
-Qed.
-
-Lemma py_int_two_digit z : py_int (two_digit z) <> None.
-Proof.
-  unfold two_digit, rjust. destruct z as [|p|p]; cbn [str_of_Z].
-  - vm_compute. discriminate.
-  - destruct (str_of_N_chars (N.pos p)) as [F Hne]. apply py_int_digits.
-    + destruct (repeat 48%N _); [cbn; exact Hne | discriminate].
-    + apply Forall_app. split.
-      * apply Forall_forall. intros c Hc. apply repeat_spec in Hc. subst c. reflexivity.
-      * eapply Forall_impl; [|exact F]. intros c. apply ascii_digit_digp.
-  - destruct (str_of_N_chars (N.pos p)) as [F Hne].
-    assert (Hd : Forall (fun c => digp c = true) (str_of_N (N.pos p))) by (eapply Forall_impl; [|exact F]; intros c; apply ascii_digit_digp).
-    replace (2 - length (45%N :: str_of_N (N.pos p))) with 0 by (destruct (str_of_N (N.pos p)); [contradiction | cbn; lia]). cbn [repeat app].
-    unfold py_int.
-    assert (St : strip (45%N :: str_of_N (N.pos p)) = 45%N :: str_of_N (N.pos p)).
-    { unfold strip, strip_by, rstrip_by. cbn [lstrip_by]. replace (is_space 45) with false by reflexivity.
-      assert (L : lstrip_by is_space (rev (45%N :: str_of_N (N.pos p))) = rev (45%N :: str_of_N (N.pos p))).
-      { cbn [rev]. destruct (rev (str_of_N (N.pos p))) as [|c r] eqn:Er.
-        - exfalso. apply Hne. rewrite <- (rev_involutive (str_of_N (N.pos p))), Er. reflexivity.
-        - cbn [app lstrip_by]. assert (Hc : digp c = true).
-          { apply (proj1 (Forall_forall _ _) Hd). apply in_rev. rewrite Er. left. reflexivity. }
-          unfold digp in Hc. repeat (apply andb_true_iff in Hc; destruct Hc as [Hc ?]). apply negb_true_iff in Hc. rewrite Hc. reflexivity. }
-      rewrite L. apply rev_involutive. }
-    rewrite St. pose proof (int_digits_ok _ 0%N false Hd (or_introl Hne)) as K.
-    destruct (int_digits (str_of_N (N.pos p)) 0 false); [discriminate | contradiction].
-Qed.
-
 (* ---- SecUnpacker is total (OutOfFuel is the model's bound on the loop, not a Python exception) ---- *)
-Definition is_td (w : str) : Prop := exists z, w = two_digit z.
+(* every section held in the working list is the two-digit rendering of a number in 0..999, which int() reads back (sweep) *)
+Definition two_digit_sweep : bool :=
+  forallb (fun i => match py_int (two_digit (Z.of_nat i)) with Some z => (z =? Z.of_nat i)%Z | None => false end) (seq 0 1000).
+Lemma two_digit_sweep_true : two_digit_sweep = true.
+Proof. vm_compute. reflexivity. Qed.
+
+Lemma int_two_digit z : small z -> int_of_group (Some (two_digit z)) = Ok z.
+Proof.
+  intros [H1 H2]. pose proof two_digit_sweep_true as S. unfold two_digit_sweep in S.
+  rewrite forallb_forall in S. specialize (S (Z.to_nat z)).
+  rewrite Z2Nat.id in S by lia.
+  assert (In (Z.to_nat z) (seq 0 1000)) by (apply in_seq; lia).
+  specialize (S H). unfold int_of_group. destruct (py_int (two_digit z)) as [w|]; [|discriminate].
+  apply Z.eqb_eq in S. subst. reflexivity.
+Qed.
+
+Definition is_td (w : str) : Prop := exists z, w = two_digit z /\ small z.
 
 Lemma last_or_in {A} (l : list A) : l <> [] -> exists x, last_or l = Ok x /\ In x l.
 Proof.
@@ -169,28 +173,40 @@ Proof.
   - exists x. split; [reflexivity|]. apply in_rev. rewrite E. left. reflexivity.
 Qed.
 
+Lemma zrange_down_in : forall k from x, In x (zrange_down k from) -> (from - Z.of_nat k < x <= from)%Z.
+Proof. induction k as [|k IH]; intros from x H; cbn [zrange_down] in H; [destruct H|]. destruct H as [<-|H]; [lia|]. specialize (IH _ _ H). lia. Qed.
+
+Lemma zrange_up_in : forall k from x, In x (zrange_up k from) -> (from <= x < from + Z.of_nat k)%Z.
+Proof. induction k as [|k IH]; intros from x H; cbn [zrange_up] in H; [destruct H|]. destruct H as [<-|H]; [lia|]. specialize (IH _ _ H). lia. Qed.
+
+Lemma elided_small n e : small n -> small e -> Forall small (snd (elided n e)).
+Proof.
+  intros [N1 N2] [E1 E2]. unfold elided. destruct (n <? e)%Z eqn:C; cbn [snd]; apply Forall_forall; intros x Hx.
+  - apply Z.ltb_lt in C. apply zrange_down_in in Hx. unfold small. lia.
+  - apply Z.ltb_ge in C. apply zrange_up_in in Hx. unfold small. lia.
+Qed.
+
 Lemma sections_loop_raises txt : forall fuel endpos ft working flags flines e,
   (ft = true -> working <> []) -> Forall is_td working ->
   unpack_sections_loop (sec_step txt) fuel endpos ft working flags flines = Raise e -> e = OutOfFuel.
 Proof.
   induction fuel as [|f IH]; intros endpos ft working flags flines e Hft Htd H; cbn [unpack_sections_loop] in H; [injection H as <-; reflexivity|].
   destruct (sec_step txt endpos) as [ps|] eqn:Es; [|discriminate].
-  destruct (sec_step_total txt endpos ps Es) as (st0 & z & -> & Ez). cbn [bind] in H. rewrite Ez in H. cbn [bind] in H.
+  destruct (sec_step_small txt endpos ps Es) as (st0 & z & -> & Ez & Sz). cbn [bind] in H. rewrite Ez in H. cbn [bind] in H.
   destruct ft.
   - destruct (last_or_in working (Hft eq_refl)) as (prev & El & Hin). rewrite El in H. cbn [bind] in H.
-    destruct (proj1 (Forall_forall _ _) Htd prev Hin) as (zp & ->).
-    assert (Ei : exists zz, int_of_group (Some (two_digit zp)) = Ok zz).
-    { unfold int_of_group. pose proof (py_int_two_digit zp) as K. destruct (py_int (two_digit zp)) as [zz|]; [eexists; reflexivity | contradiction]. }
-    destruct Ei as (zz & Ei). rewrite Ei in H. cbn [bind] in H.
-    destruct (elided z zz) as [ok rng].
+    destruct (proj1 (Forall_forall _ _) Htd prev Hin) as (zp & -> & Szp).
+    rewrite (int_two_digit zp Szp) in H. cbn [bind] in H.
+    pose proof (elided_small z zp Sz Szp) as Hs. destruct (elided z zp) as [ok rng]. cbn [snd] in Hs.
     assert (Hw : Forall is_td (working ++ map two_digit rng)).
-    { apply Forall_app. split; [exact Htd|]. apply Forall_forall. intros x Hx. apply in_map_iff in Hx. destruct Hx as (y & <- & _). exists y. reflexivity. }
+    { apply Forall_app. split; [exact Htd|]. apply Forall_forall. intros x Hx. apply in_map_iff in Hx. destruct Hx as (y & <- & Hy).
+      exists y. split; [reflexivity | exact (proj1 (Forall_forall _ _) Hs y Hy)]. }
     assert (Hn : rs_thru st0 = true -> working ++ map two_digit rng <> []).
     { intros _ K. apply app_eq_nil in K. destruct K as [K _]. exact (Hft eq_refl K). }
     destruct ok; cbn [bind] in H; exact (IH _ _ _ _ _ _ Hn Hw H).
   - cbn [bind] in H. apply (IH _ _ _ _ _ _) in H; [exact H | |].
     + intros _ K. apply app_eq_nil in K. destruct K as [_ K]. discriminate K.
-    + apply Forall_app. split; [exact Htd|]. constructor; [exists z; reflexivity | constructor].
+    + apply Forall_app. split; [exact Htd|]. constructor; [exists z; split; [reflexivity | exact Sz] | constructor].
 Qed.
 
 Theorem sec_unpacker_total txt e : sec_unpacker txt = Raise e -> e = OutOfFuel.
